@@ -537,6 +537,179 @@ def r7_shared_format(ctx):
         yield o
 
 
+class _Pos(object):
+    """one element / component position: knows whether it is empty, and which object it is"""
+    _sa_model = True
+    serial = [0]
+
+    def __init__(self, text, sep=None):
+        _Pos.serial[0] += 1
+        self.n = _Pos.serial[0]
+        self.text = text
+        self.sep = sep
+
+    def is_empty(self):
+        return self.text == ''
+
+    def get_value(self):
+        return self.text
+
+    def format(self, st=None):
+        return self.text
+
+    def __len__(self):
+        return 1
+
+    def __hash__(self):
+        return hash(('pos', self.n))
+
+    def __eq__(self, o):
+        return self is o
+
+
+def r8_positions(ctx):
+    """a segment holds one object per element position, and says how many it holds: (a) len() of a Segment / Composite
+    is the number of positions, trailing empty ones included - it is what set() pads against and what the syntax notes
+    and the too-many-elements check count; (b) Segment.__init__ builds a separate Composite for every element of the
+    text, empty ones included, each from its own text and with the component separator (the element separator for the
+    ISA) - two positions that are one object change together when one of them is set.  Decided by constant propagation."""
+    from ..absint import run_function, explore, helper_oracles, NotClosedTest
+    hf = helper_oracles(ctx, 'segment')
+    for cname in ('Segment', 'Composite'):
+        fn = ctx.func('segment', cname + '.__len__')
+        bad = []
+        for vals in ((), ('A',), ('A', ''), ('', ''), ('A', '', 'B', '', ''), ('',)):
+            try:
+                got = run_function(ctx.cfg(fn), fn, [None], hf, env={'self.elements': tuple(_Pos(v) for v in vals), 'self.seg_id': 'REF'})
+            except (NotClosedTest, A.NotClosed) as e:
+                raise AnalysisError('%s.__len__ cannot be decided for the values %s: %s' % (cname, list(vals), e))
+            if got != len(vals):
+                bad.append('len() of a %s holding %s is %r, not %d' % (cname.lower(), list(vals), got, len(vals)))
+        yield Ob('segment:%s.__len__ is the number of positions held, empty ones included' % cname, not bad, ctx.floc(fn),
+                 '' if not bad else bad[0] + ': a position that exists (and can be read and written) is not counted')
+    fn = ctx.func('segment', 'Segment.__init__')
+    g = ctx.cfg(fn)
+    bad = []
+    for text, sid, want in (('REF*A**B:C**~', 'REF', ['A', '', 'B:C', '', '']), ('REF***', 'REF', ['', '', '']), ('ISA*00*:*', 'ISA', ['00', ':', '']),
+                            ('SE', 'SE', []), ('HL*1**20*1~', 'HL', ['1', '', '20', '1'])):
+        fin = []
+
+        def on_node(nd, env, g=g):
+            if nd is g.exit:
+                fin.append((env.get('self.elements'), env.get('self.seg_id')))
+
+        def unk(nd, env):
+            raise AnalysisError('Segment.__init__: a test cannot be decided for %r: %s' % (text, norm(nd.ast)))
+        explore(g, {'seg_str': text, 'seg_term': '~', 'ele_term': '*', 'subele_term': ':', 'repetition_term': '^'},
+                funcs=dict(hf, Composite=lambda t, sep=None: _Pos(t, sep)), on_node=on_node, on_unknown=unk)
+        for els, got_id in fin:
+            if not isinstance(els, tuple) or not all(isinstance(e, _Pos) for e in els):
+                raise AnalysisError('Segment.__init__: the element list is not determined for %r' % text)
+            sep = '*' if sid == 'ISA' else ':'
+            if got_id != sid or [e.text for e in els] != want:
+                bad.append('%r is parsed into id %r and elements %s, expected %r and %s' % (text, got_id, [e.text for e in els], sid, want))
+            elif len({e.n for e in els}) != len(els):
+                dup = [i + 1 for i, e in enumerate(els) if [x.n for x in els].count(e.n) > 1]
+                bad.append('%r: the element positions %s are one and the same object: setting one of them changes the others' % (text, dup))
+            elif any(e.sep != sep for e in els):
+                bad.append('%r: an element is split at %r, expected %r' % (text, [e.sep for e in els if e.sep != sep][0], sep))
+        if not fin:
+            raise AnalysisError('Segment.__init__: no outcome for %r' % text)
+    yield Ob('segment:Segment.__init__ builds one separate Composite per element of the text', not bad, ctx.floc(fn), '' if not bad else bad[0])
+
+
+class _CompA(object):
+    """a composite for the accessor decisions: components are texts"""
+    _sa_model = True
+
+    def __init__(self, name, comps):
+        self.name = name
+        self.comps = tuple(_Pos(c) for c in comps)
+
+    def __len__(self):
+        return len(self.comps)
+
+    def __getitem__(self, i):
+        return self.comps[i]
+
+    def format(self, st=None):
+        return 'F(%s)' % self.name
+
+    def is_empty(self):
+        return all(c.text == '' for c in self.comps)
+
+    def __hash__(self):
+        return hash(('compa', self.name))
+
+    def __eq__(self, o):
+        return self is o
+
+    def __repr__(self):
+        return self.name
+
+
+class _SelfLen2(object):
+    _sa_model = True
+
+    def __len__(self):
+        return 2
+
+    def __hash__(self):
+        return hash('selflen2')
+
+
+def r9_accessors(ctx):
+    """reading decided by constant propagation: (a) is_empty of an element (None and '' only - a blank is a value), of a
+    composite (all components empty) and of a segment (no element, or all empty); (b) Segment.get for designators of an
+    element, of a component, beyond the last element and beyond the last component: the object at exactly that position,
+    None beyond the end, IndexError without an element index; (c) Segment.get_value is the format() of what get returns,
+    None for None."""
+    from ..absint import run_function, helper_oracles, NotClosedTest
+    hf = helper_oracles(ctx, 'segment')
+
+    def run(fn, args, env, what):
+        try:
+            return run_function(ctx.cfg(fn), fn, [env.get('self')] + args, hf2, env=env)
+        except (NotClosedTest, A.NotClosed) as e:
+            raise AnalysisError('%s cannot be decided (%s): %s' % (fn.name, what, e))
+    hf2 = dict(hf)
+    bad = []
+    fn = ctx.func('segment', 'Element.is_empty')
+    for v, want in ((None, True), ('', True), (' ', False), ('A', False), ('0', False)):
+        got = run(fn, [], {'self.value': v}, repr(v))
+        if got is not want:
+            bad.append('Element(%r).is_empty() is %r' % (v, got))
+    yield Ob('segment:Element.is_empty: exactly None and the empty string are empty', not bad, ctx.floc(fn), '' if not bad else bad[0])
+    for cname, cases in (('Composite', (((), True), (('',), True), (('', ''), True), (('', 'A'), False), ((' ',), False), (('A', ''), False))),
+                         ('Segment', (((), True), (('',), True), (('', '', ''), True), (('', 'A'), False), (('A', '', ''), False), ((' ', ''), False)))):
+        fn = ctx.func('segment', cname + '.is_empty')
+        bad = []
+        for vals, want in cases:
+            got = run(fn, [], {'self.elements': tuple(_Pos(v) for v in vals), 'self.seg_id': 'REF'}, list(vals))
+            if got is not want:
+                bad.append('a %s holding %s: is_empty() is %r' % (cname.lower(), list(vals), got))
+        yield Ob('segment:%s.is_empty: empty exactly when every position is' % cname, not bad, ctx.floc(fn), '' if not bad else bad[0])
+    fn = ctx.func('segment', 'Segment.get')
+    bad = []
+    for (ei, ci), want in (((0, None), 'e1'), ((1, None), 'e2'), ((2, None), None), ((1, 0), 'c1'), ((1, 2), 'c3'), ((1, 3), None), ((0, 0), 'a1'),
+                           ((0, 1), None), ((5, 0), None), ((None, None), ('raises', 'IndexError'))):
+        els = (_CompA('e1', ('a1',)), _CompA('e2', ('c1', 'c2', 'c3')))
+        hf2 = dict(hf, **{'self._parse_refdes': lambda r, ei=ei, ci=ci: (ei, ci), 'self.__len__': lambda: 2})
+        got = run(fn, ['RD'], {'self.elements': els, 'self.seg_id': 'REF', 'self': _SelfLen2()}, (ei, ci))
+        shown = got.name if isinstance(got, _CompA) else (got.text if isinstance(got, _Pos) else got)
+        if shown != want:
+            bad.append('element index %r, component index %r on REF*a1*c1:c2:c3 gives %r, expected %r' % (ei, ci, shown, want))
+    yield Ob('segment:Segment.get returns the object at exactly the designated position, None beyond the end', not bad, ctx.floc(fn), '' if not bad else bad[0])
+    fn = ctx.func('segment', 'Segment.get_value')
+    bad = []
+    for ret, want in ((_CompA('e1', ('a1',)), 'F(e1)'), (None, None), (_CompA('e0', ('',)), 'F(e0)')):
+        hf2 = dict(hf, **{'self.get': lambda r, ret=ret: ret})
+        got = run(fn, ['RD'], {'self.seg_id': 'REF'}, ret)
+        if got != want:
+            bad.append('get_value of %r is %r, expected %r' % (ret, got, want))
+    yield Ob('segment:Segment.get_value is the text of what get returns (None for None)', not bad, ctx.floc(fn), '' if not bad else bad[0])
+
+
 def r5_map_paths(ctx):
     pat, flags, node = _rec_path(ctx)
     rx = re.compile(pat, flags)
@@ -564,6 +737,8 @@ RULES = [
     Rule('C17.R3', 'refusal conditions over all part combinations; foreign segment id refused before index use', r3_refusals, floor=3),
     Rule('C17.R4', 'Segment.set pads before it stores; Segment.get tests each index', r4_pad_before_store, floor=6),
     Rule('C17.R7', 'shared with C01.R8: format prints every position up to the last non-empty one', r7_shared_format, floor=2),
+    Rule('C17.R8', 'len() counts every position; Segment.__init__ builds one separate Composite per element (constant propagation)', r8_positions, floor=3),
+    Rule('C17.R9', 'is_empty of element / composite / segment, Segment.get and get_value decided per position (constant propagation)', r9_accessors, floor=5),
     Rule('C17.R6', 'reading methods of Element/Composite/Segment do not modify the object (no store, delete or mutating call, also through aliases)', r6_reads_do_not_write, floor=30),
     Rule('C17.R5', 'every map node path component parses into its own parts', r5_map_paths, floor=2400),
 ]
